@@ -1,4 +1,5 @@
 import CstModel.Props.C07
+import CstModel.Props.GenNode
 open Cst.C07
 #print axioms facts_ok
 #print axioms teardown_race_free
@@ -15,3 +16,8 @@ open Cst.C07
 #print axioms marker_facts
 #print axioms data_lock_facts
 #print axioms data_scenario_relaxed_races
+#print axioms Cst.Gen.n_clone
+#print axioms Cst.Gen.n_drop
+#print axioms Cst.Gen.n_try_write
+#print axioms Cst.Gen.n_read
+#print axioms Cst.Gen.facts_agree
